@@ -1,8 +1,21 @@
-(** Property C10 (placeholder while the kernel proofs are being written) *)
-From Coq Require Import ZArith List.
-From LV Require Import Base.Lin Spec.Specs Proofs.LinProofs Model.FcBatch Proofs.FcBatchProofs.
+(** Property C10 — "Every concurrent history of push_front, push_back, pop_front and pop_back on FCDeque
+    (elimination on or off, any underlying deque) is linearizable to a sequential deque.  In particular, a push at
+    one end is collided with a pop at the other end only when the deque is empty."
+
+    Model: LV.Model.FcBatch (FCDeque::fc_apply and FCDeque::fc_process/collide as pure functions copied from
+    cds/container/fcdeque.h) executed by the kernel model LV.Model.FcKernel (step-checked against the real kernel
+    by C23).  Only statements here; proofs in LV.Proofs.FcBatchProofs, FcKernelProofs, FcContainers. *)
+From Coq Require Import ZArith List String Bool.
+From LV Require Import Base.Conc Base.Events Base.Lin Spec.Specs Proofs.LinProofs Model.FcKernel Model.FcBatch
+                       Proofs.FcBatchProofs Proofs.FcKernelProofs Proofs.FcContainers.
 Import ListNotations.
 
+(** *** fc_process is sound, for ALL lists of pending requests and ALL deque contents.
+    [reqs] = the pending requests met by the iterator in publication-list order (record, request word, owner,
+    argument), distinct records; [cs] = the (record, response) pairs for which operation_done is called, in call
+    order.  The responses written are exactly those of running the completed requests one after the other as a
+    sequential deque from the current contents [d], and that run leaves [d] unchanged; no request is completed
+    twice; the request left in itPrev is not completed. *)
 Theorem C10_fcdeque_process_sound : forall reqs d p' d' cs,
   NoDup (map rec_of reqs) -> Forall (fun x => dq_okop (snd (fst (fst x))) = true) reqs ->
   dq_process None d reqs = (p', d', cs) ->
@@ -16,7 +29,40 @@ Theorem C10_fcdeque_process_sound : forall reqs d p' d' cs,
 Proof. exact fcdeque_process_sound. Qed.
 Print Assumptions C10_fcdeque_process_sound.
 
+(** *** a push at one end is collided with a pop at the other end only when the deque is empty
+    ([dq_pairs] lists the collisions fc_process performs: push record/word, pop record/word) *)
 Theorem C10_fcdeque_cross_end_only_if_empty : forall reqs p d x,
   In x (dq_pairs p d reqs) -> dq_cross x = true -> d = [].
 Proof. exact fcdeque_cross_end_only_if_empty. Qed.
 Print Assumptions C10_fcdeque_cross_end_only_if_empty.
+
+(** *** linearizability, for every schedule.
+    Client programs: requests with the FCDeque request words (push_front 2/3, push_back 4/5, pop_front 6,
+    pop_back 7) through kernel::combine (elimination off) or kernel::batch_combine (elimination on), and thread
+    exits; any number of threads; any compact-factor mask and combine pass count. *)
+Definition C10_fcdeque_linearizable_statement : Prop :=
+  forall (fuel mask npass : nat) (ths : list (list cop)) c,
+    1 <= npass -> ops_ok dq_okop ths -> Conc.reach (dq_init_cfg true fuel mask npass ths) c ->
+    linearizable Deque (fc_history Deque res_dec dq_dec (Conc.trace c)).
+
+(** Proved for every trace without the model event "lost" (see Properties_C23: the only missing piece is that a
+    combiner's own record is reached by its own combining pass). *)
+Theorem C10_fcdeque_linearizable_partial :
+  forall (chk : bool) (fuel mask npass : nat) (ths : list (list cop)) c,
+    ops_ok dq_okop ths -> Conc.reach (dq_init_cfg chk fuel mask npass ths) c ->
+    has_lost (Conc.trace c) = false ->
+    linearizable Deque (fc_history Deque res_dec dq_dec (Conc.trace c)).
+Proof. exact fcdeque_linearizable_partA. Qed.
+Print Assumptions C10_fcdeque_linearizable_partial.
+
+(** non-vacuity: three threads, elimination on (batch_combine): thread 0 becomes combiner and is parked, threads 1
+    and 2 publish push_front 7 / pop_back; the deque is empty so fc_process collides them across the ends; the run
+    completes, nothing is lost, the history has 4 operations *)
+Example C10_nonvacuous :
+  let c := fst (Conc.run 4000 0
+                  ([0;0;0;0;0;0;0;0;0;0;0;0;0] ++ [1;1;1;1;1;1;1;1;1;1;1;1;1;1] ++ [2;2;2;2;2;2;2;2;2;2;2;2;2;2] ++ repeat 0 120)%nat
+                  (dq_init_cfg true 400 0 2 [[CReq true 4 5%Z; CReq true 6 0%Z]; [CReq true 2 7%Z]; [CReq true 7 0%Z]])) in
+  has_lost (Conc.trace c) = false /\
+  List.length (fc_history Deque res_dec dq_dec (Conc.trace c)) = 8%nat /\
+  lincheck Deque (fc_history Deque res_dec dq_dec (Conc.trace c)) = true.
+Proof. vm_compute. repeat split; reflexivity. Qed.
